@@ -1,6 +1,7 @@
 package verifchecks
 
 import (
+	"encoding/binary"
 	"encoding/json"
 	"fmt"
 	"os"
@@ -9,9 +10,12 @@ import (
 	"strings"
 	"testing"
 
+	"github.com/dgraph-io/badger/v4"
 	"pgregory.net/rapid"
 
 	kit "github.com/mimiro-io/datahub/internal/verifkit"
+
+	"github.com/mimiro-io/datahub/internal/server"
 )
 
 // Op is one step of a generated history. Histories are data: they are drawn
@@ -50,6 +54,8 @@ type gm struct {
 	cls   map[string]bool
 	// refHist[source][target][dataset][pred]: every reference ever written (any version)
 	refHist map[string]map[string]map[string]map[string]bool
+	dsIDs   map[uint32]string // internal dataset ids ever handed out -> owner
+	deadIDs []uint32          // internal ids of deleted datasets
 }
 
 func newGM(t *rapid.T, names []string, gen kit.GenCfg) *gm {
@@ -64,11 +70,20 @@ func newGMf(t *rapid.T, f fataler, names []string, gen kit.GenCfg) *gm {
 			f.Fatalf("create dataset: %v", err)
 		}
 		g.m.Create(n)
+		if d := g.h.Dsm.GetDataset(n); d != nil {
+			if g.dsIDs == nil {
+				g.dsIDs = map[uint32]string{}
+			}
+			g.dsIDs[d.InternalID] = n + "#1"
+		}
 	}
 	return g
 }
 
 func (g *gm) close() { g.h.Close() }
+
+// live returns the names of the datasets that currently exist (model).
+func (g *gm) live() []string { return g.m.Names() }
 
 func (g *gm) histJSON() string {
 	var sb strings.Builder
@@ -285,11 +300,165 @@ func hasNested(v any) bool {
 	return false
 }
 
+// ---- dataset management ops -------------------------------------------------
+
+func (g *gm) applyCreate(op Op) {
+	g.record(op)
+	if op.Via == "http" {
+		if code, body := g.h.Do("POST", "/datasets/"+op.Name, "", nil); code != 200 {
+			g.fail("POST /datasets/%s -> %d %s", op.Name, code, body)
+		}
+	} else if _, err := g.h.Dsm.CreateDataset(op.Name, nil); err != nil {
+		g.fail("CreateDataset(%s): %v", op.Name, err)
+	}
+	if g.m.EverName[op.Name] {
+		g.cls["re-create"] = true
+	}
+	g.m.Create(op.Name)
+	d := g.h.Dsm.GetDataset(op.Name)
+	if d == nil {
+		g.fail("dataset %s missing right after create", op.Name)
+	}
+	if g.dsIDs == nil {
+		g.dsIDs = map[uint32]string{}
+	}
+	if prev, used := g.dsIDs[d.InternalID]; used {
+		g.fail("DATASET-ID-REUSED: new dataset %s got internal id %d which belonged to %s", op.Name, d.InternalID, prev)
+	}
+	g.dsIDs[d.InternalID] = fmt.Sprintf("%s#%d", op.Name, g.m.DS[op.Name].Incarnation)
+}
+
+func (g *gm) applyDelete(op Op) {
+	g.record(op)
+	d := g.h.Dsm.GetDataset(op.Name)
+	if d != nil {
+		g.deadIDs = append(g.deadIDs, d.InternalID)
+	}
+	if op.Via == "http" {
+		if code, body := g.h.Do("DELETE", "/datasets/"+op.Name, "", nil); code != 200 {
+			g.fail("DELETE /datasets/%s -> %d %s", op.Name, code, body)
+		}
+	} else if err := g.h.Dsm.DeleteDataset(op.Name); err != nil {
+		g.fail("DeleteDataset(%s): %v", op.Name, err)
+	}
+	md := g.m.DS[op.Name]
+	for _, other := range g.m.Names() {
+		if other == op.Name {
+			continue
+		}
+		for id, v := range md.Latest {
+			if g.m.DS[other].Latest[id] != nil {
+				g.cls["deleted-dataset-shared-id"] = true
+			}
+			for _, tv := range v.Refs {
+				for _, tg := range kit.RefTargets(kit.Canon(tv)) {
+					if g.m.DS[other].Latest[tg] != nil {
+						g.cls["deleted-dataset-shared-ref"] = true
+					}
+				}
+			}
+		}
+	}
+	g.m.Delete(op.Name)
+	for _, byT := range g.refHist {
+		for _, byDS := range byT {
+			delete(byDS, op.Name)
+		}
+	}
+	g.cls["dataset-deleted"] = true
+}
+
+func (g *gm) applyRename(op Op) {
+	g.record(op)
+	if op.Via == "http" {
+		body, _ := json.Marshal(map[string]string{"ID": op.ID})
+		if code, resp := g.h.Do("PATCH", "/datasets/"+op.Name, string(body), nil); code != 200 {
+			g.fail("PATCH /datasets/%s -> %d %s", op.Name, code, resp)
+		}
+	} else if _, err := g.h.Dsm.UpdateDataset(op.Name, &server.UpdateDatasetConfig{ID: op.ID}); err != nil {
+		g.fail("UpdateDataset(%s -> %s): %v", op.Name, op.ID, err)
+	}
+	g.m.Rename(op.Name, op.ID)
+	for _, byT := range g.refHist {
+		for _, byDS := range byT {
+			if v, ok := byDS[op.Name]; ok {
+				byDS[op.ID] = v
+				delete(byDS, op.Name)
+			}
+		}
+	}
+	g.cls["rename"] = true
+}
+
+func (g *gm) applyGC(op Op) {
+	g.record(op)
+	if err := g.h.GC.Cleandeleted(); err != nil {
+		g.fail("Cleandeleted: %v", err)
+	}
+	if op.N == 1 {
+		_ = g.h.GC.GC()
+	}
+	if len(g.deadIDs) > 0 {
+		g.cls["gc-after-delete"] = true
+	}
+	g.checkNoKeysOfDeadDatasets()
+}
+
+func (g *gm) applyRestart(op Op) {
+	g.record(op)
+	g.h.Restart()
+	g.cls["restart"] = true
+}
+
+// checkNoKeysOfDeadDatasets scans the five data index families through the raw
+// badger handle: after Cleandeleted no key may carry a deleted dataset's id.
+func (g *gm) checkNoKeysOfDeadDatasets() {
+	dead := map[uint32]bool{}
+	for _, id := range g.deadIDs {
+		dead[id] = true
+	}
+	if len(dead) == 0 {
+		return
+	}
+	db := server.NewBadgerAccess(g.h.Store, g.h.Dsm).GetDB()
+	err := db.View(func(txn *badger.Txn) error {
+		opts := badger.DefaultIteratorOptions
+		opts.PrefetchValues = false
+		it := txn.NewIterator(opts)
+		defer it.Close()
+		for it.Rewind(); it.Valid(); it.Next() {
+			k := it.Item().KeyCopy(nil)
+			if len(k) < 2 {
+				continue
+			}
+			idx := binary.BigEndian.Uint16(k)
+			var ds uint32
+			switch {
+			case idx == uint16(server.EntityIDToJSONIndexID) && len(k) >= 14:
+				ds = binary.BigEndian.Uint32(k[10:])
+			case (idx == uint16(server.DatasetEntityChangeLog) || idx == uint16(server.DatasetLatestEntities)) && len(k) >= 6:
+				ds = binary.BigEndian.Uint32(k[2:])
+			case (idx == uint16(server.OutgoingRefIndex) || idx == uint16(server.IncomingRefIndex)) && len(k) >= 40:
+				ds = binary.BigEndian.Uint32(k[36:])
+			default:
+				continue
+			}
+			if dead[ds] {
+				return fmt.Errorf("key of index %d still carries garbage-collected dataset id %d", idx, ds)
+			}
+		}
+		return nil
+	})
+	if err != nil {
+		g.fail("GC-LEFTOVER: %v", err)
+	}
+}
+
 // ---- generators of write ops ----------------------------------------------
 
 func (g *gm) genBatchOp() Op {
 	t := g.t
-	ds := rapid.SampledFrom(g.names).Draw(t, "ds")
+	ds := rapid.SampledFrom(g.live()).Draw(t, "ds")
 	via := rapid.SampledFrom([]string{"store", "parser", "http"}).Draw(t, "via")
 	max := 4
 	if rapid.IntRange(0, 9).Draw(t, "big") == 0 {
@@ -345,8 +514,8 @@ func (g *gm) genEntFor(ds string, batch []*kit.Ent) *kit.Ent {
 
 func (g *gm) genTxnOp() Op {
 	t := g.t
-	nds := rapid.IntRange(1, len(g.names)).Draw(t, "nds")
-	perm := rapid.Permutation(g.names).Draw(t, "perm")
+	nds := rapid.IntRange(1, len(g.live())).Draw(t, "nds")
+	perm := rapid.Permutation(g.live()).Draw(t, "perm")
 	parts := map[string][]*kit.Ent{}
 	for _, ds := range perm[:nds] {
 		n := rapid.IntRange(1, 3).Draw(t, "n")
@@ -576,13 +745,14 @@ func (g *gm) checkRelated(start, pred string, inv bool, scope []string, limits [
 
 func (g *gm) scopes() [][]string {
 	out := [][]string{nil}
-	for _, n := range g.names {
+	names := g.live()
+	for _, n := range names {
 		out = append(out, []string{n})
 	}
-	if len(g.names) >= 3 {
-		out = append(out, []string{g.names[0], g.names[2]})
-	} else if len(g.names) == 2 {
-		out = append(out, []string{g.names[0], g.names[1]})
+	if len(names) >= 3 {
+		out = append(out, []string{names[0], names[2]})
+	} else if len(names) == 2 {
+		out = append(out, []string{names[0], names[1]})
 	}
 	return out
 }
